@@ -89,6 +89,8 @@ impl SegmentLogReader {
 
         while !last_batch_to_read && offset < file_size {
             file_size = self.file_size();
+            #[cfg(feature = "verif")]
+            crate::verif::sched_point("log_reader_before_read").await;
             match self.read_next_batch(offset, file_size).await? {
                 Some((batch, bytes_read)) => {
                     offset += bytes_read;
